@@ -84,6 +84,23 @@ def impl_replay(job):
                 res = {"ok": False, "what": "queue-clock", "detail": "final next queue time %r, expected %r" % (nqt, rec["slot"] * dt)}
             elif pend != wantp:
                 res = {"ok": False, "what": "pending", "detail": "still-queued deliveries %r, expected %r" % (pend, wantp)}
+            elif not (job["via"] == 2 and not rec.get("preload")):
+                # the same behaviour once more through the SAME interface and simulator objects with a fresh queue: nothing of
+                # the first run (queued deliveries, state, clock) is carried over
+                sim = DelaySSASimulator()
+                for tag in ("second", "third (same simulator object)"):
+                    q2 = ArrayDelayQueue.setup_queue(nr, nt, dt)
+                    for k, rr, c in rec.get("preload", []):
+                        q2.py_add_reaction(k * dt, rr - 1, float(c))
+                    brandom.py_verif_script(draws + [0.5] * 4)
+                    g = sim.py_delay_simulate(itf, q2, tp).py_get_result()
+                    brandom.py_verif_script(None)
+                    rows2 = [[float(g[i, c]) for c in cols] for i in range(g.shape[0])]
+                    if rows2 != want:
+                        k = next((i for i in range(min(len(rows2), len(want))) if rows2[i] != want[i]), -1)
+                        res = {"ok": False, "what": "rows-repeated-run", "detail": "%s run on the same interface, row %d: got %r expected %r" % (
+                            tag, k, rows2[k] if k >= 0 else None, want[k] if k >= 0 else None)}
+                        break
         except BaseException as e:  # noqa
             try:
                 brandom.py_verif_script(None)
